@@ -6,7 +6,7 @@ import operator
 
 import sqlalchemy.exc
 import sqlalchemy.inspection
-from sqlalchemy import and_, or_, select, Select, func, literal, not_ as sa_not
+from sqlalchemy import and_, or_, select, Select, func, literal, true, not_ as sa_not
 from sqlalchemy.orm import Session
 
 from ..entity_query_language.symbolic import (
@@ -374,6 +374,7 @@ class EQLTranslator:
 
     sql_query: Optional[Select] = None
     join_manager: JoinManager = field(default_factory=JoinManager)
+    or_depth: int = 0
 
     @property
     def quantifier(self) -> SymbolicExpression:
@@ -459,7 +460,11 @@ class EQLTranslator:
         :param query: EQL query
         :return: SQL expression or None if all parts are handled via JOINs.
         """
-        parts = self._collect_logical_parts(query)
+        self.or_depth += 1
+        try:
+            parts = self._collect_logical_parts(query)
+        finally:
+            self.or_depth -= 1
         return self._combine_logical_parts(parts, or_)
 
     def _collect_logical_parts(self, query: Any) -> List[Any]:
@@ -510,8 +515,10 @@ class EQLTranslator:
         """
         if self._is_attribute_equality_join(query):
             join_result = self._handle_attribute_equality_join(query)
-            if join_result is not None:
+            if join_result is True:
                 return None
+            if join_result is not None:
+                return join_result
 
         self._check_relationship_operands(query)
 
@@ -594,7 +601,8 @@ class EQLTranslator:
         Handle an attribute equality join.
 
         :param query: The comparator query
-        :return: True if JOIN was performed, None otherwise
+        :return: True if the equality became the ON clause of a JOIN, the equality itself if it has to
+            stay an ordinary condition (inside an OR, or the table is joined already), None if not applicable
         """
         resolver = AttributeChainResolver()
 
@@ -638,12 +646,14 @@ class EQLTranslator:
                 f"Cannot join {target_dao.__name__} to {anchor_dao.__name__}: self joins are not supported."
             )
 
-        if not self.join_manager.is_table_joined(target_dao):
-            onclause = target_fk == anchor_fk
+        equality = target_fk == anchor_fk
+        already_joined = self.join_manager.is_table_joined(target_dao)
+        if not already_joined:
+            onclause = true() if self.or_depth else equality
             self.sql_query = self.sql_query.join(target_dao, onclause=onclause)
             self.join_manager.add_table_join(target_dao)
 
-        return True
+        return equality if already_joined or self.or_depth else True
 
     def _translate_comparator_operand(self, operand: Any) -> Any:
         """
@@ -834,10 +844,8 @@ class EQLTranslator:
         # determines the ON clause, while we control aliasing of the right side
         self.sql_query = self.sql_query.join(aliased_target, relationship_attr)
 
-        # Record both the logical path and the table as joined to avoid duplicates
+        # Record the logical path as joined to avoid duplicates (the unaliased table is not in FROM)
         self.join_manager.add_path_join(dao_class, attribute_name, aliased_target)
-        # Track underlying table class as joined; alias class type differs but table is the same
-        self.join_manager.add_table_join(target_dao)
 
         return aliased_target
 
